@@ -129,7 +129,7 @@ def replace_expr(modname, q, match, new_src, name=None, nth=0, exact=False):
             def visit(self, node):
                 if self.done:
                     return node
-                if isinstance(node, ast.expr):
+                if isinstance(node, ast.expr) and not isinstance(getattr(node, 'ctx', None), (ast.Store, ast.Del)):
                     src = unparse(node)
                     if (src == match) if exact else (match == src):
                         if k[0] == nth:
